@@ -61,9 +61,9 @@ def run_case(case, extdir):
                 out['refused'] += 1
             for name, res, model in pr.obligations:
                 out['obligations'] += 1
-                if res == 'unsat':
+                if res in ('unsat', 'unsat-const'):
                     out['discharged'] += 1
-                    if not pr.approx: pass
+                    if res == 'unsat': out['nontrivial'] += 1          # decided by a solver query (not folded to a constant)
                 elif res in ('sat', 'sat-concrete'):
                     out['candidates'].append(dict(obligation=name, model=model, status=pr.status[:300]))
                 else:
@@ -101,6 +101,7 @@ def run_case(case, extdir):
                                           found_by='witness-replay'))
         if case.concrete_only:
             out['obligations'] += len(res); out['discharged'] += len(res) - len(bad)
+            out['concrete_only'] = True; out['concrete_obligations'] = len(res)
     seen = set()
     for cand in out['candidates']:
         key = cand['obligation']
@@ -275,8 +276,12 @@ def report(pid, tier, seed, mod, cases, results, wall, a):
         property_id=pid, tier=tier, seed=seed, level='other', wall_s=round(wall, 2), violations=nviol,
         coverage=dict(
             explanation=meta.get('explanation', '') + ' Verdict per obligation: z3 unsat of (path condition AND assumptions AND NOT assertion) over all reals within the stated bounds; sat models are replayed on the real float64 code before being reported.',
-            evaluations=max(1, obligations), distinct_nontrivial=max(0, discharged),
-            rule='one evaluation = one (path, assertion) obligation sent to the solver after symbolic execution of the real code; counted as non-trivial when it was discharged (unsat) by the solver rather than folded to a constant by term simplification',
+            evaluations=max(1, obligations), distinct_nontrivial=sum(r.get('nontrivial', 0) for r in good),
+            rule='one evaluation = one (case, path, assertion) obligation produced by executing the real code (symbolically, or concretely in the cases marked concrete_only); an obligation is counted as distinct and non-trivial when it was discharged by a z3 query (unsat) - obligations folded to True by term simplification, and the obligations of concrete_only cases, are not counted',
+            obligations_solver_decided=sum(r.get('nontrivial', 0) for r in good),
+            obligations_folded_to_constant=sum(r['discharged'] - r.get('nontrivial', 0) - (r.get('concrete_obligations', 0) if r.get('concrete_only') else 0) for r in good if not r.get('concrete_only')),
+            concrete_only_cases=[r['case'] for r in good if r.get('concrete_only')],
+            concrete_only_obligations=sum(r.get('concrete_obligations', 0) for r in good if r.get('concrete_only')),
             obligations=obligations, discharged=discharged, inconclusive_unknown=unknown, non_reproducing_models=nonrepro,
             aborted_paths=aborted, cases=len(cases), cases_timed_out=[t['case'] for t in timeouts], cases_failed_to_run=[dict(case=e['case'], error=e['error'][:300]) for e in errors],
             paths=sum(r.get('npaths', 0) for r in good), worklist_remaining=sum(r.get('remaining', 0) for r in good),
@@ -288,7 +293,7 @@ def report(pid, tier, seed, mod, cases, results, wall, a):
             outside_claim=meta.get('outside', []), lemmas=meta.get('lemmas', []), cuts=meta.get('cuts', []),
             vacuity=dict(cases_with_reachability_witness=sum(1 for r in good if r.get('witness') is not None),
                          witness_replays_ok=sum(1 for r in good if r.get('witness_ok')), cases_without_witness=nowit[:20]),
-            per_case=[dict(case=r['case'], paths=r.get('npaths'), obligations=r['obligations'], discharged=r['discharged'],
+            per_case=[dict(case=r['case'], descr=r.get('descr', '')[:200], concrete_only=bool(r.get('concrete_only')), paths=r.get('npaths'), obligations=r['obligations'], discharged=r['discharged'], solver_decided=r.get('nontrivial', 0),
                            unknown=r['unknown'], remaining=r['remaining'], wall_s=r.get('wall_s'),
                            path_status=r.get('path_status'), aborted=r['aborted'][:3]) for r in good],
             violations=viol_records, known_findings_hit=[k['what'] for k, _, _ in known_hits],
